@@ -98,7 +98,7 @@ Proof.
   - cbn [ExRender.pitems render render_item T tx tokc]. rewrite app_nil_r. apply passes_plain, pname_plain. exact Hn.
   - apply andb_prop in Hs. destruct Hs as [_ Hs]. apply andb_prop in Hn. destruct Hn as [Hn Hl].
     cbn [ExRender.pitems]. rewrite !render_app. apply passes_app; [apply IHc; assumption|]. apply passes_app.
-    + rewrite render_dot. unfold dot_sep. destruct c; try plain_closed. destruct (is_digits lookup && is_digits l); plain_closed.
+    + rewrite render_dot. unfold dot_sep. destruct (is_digits l && ends_numeric (print lower printable c)); plain_closed.
     + cbn [render render_item T]. rewrite app_nil_r. unfold lookup_tok. destruct (all_digits l) eqn:Ed; cbn [tx tokc].
       * apply passes_plain, digits_plain. exact Ed.
       * cbn [orb] in Hl. apply passes_plain, pname_plain. exact Hl.
